@@ -80,7 +80,7 @@ def build_lean(targets, log):
         return rc, out
 
 AUDIT_TMPL = """import Lean
-import {module}
+{imports}
 open Lean Elab Command
 
 -- every theorem of the GmqttVerif modules this property imports, with the axioms it depends on
@@ -111,12 +111,13 @@ run_cmd do
 {prints}
 """
 
-def audit(module, theorems, log):
+def audit(module, theorems, log, extra_modules=()):
     """returns (ok, n_theorems, axioms, problems, per-theorem axiom lines)"""
     os.makedirs(os.path.join(LEAN, "Audit"), exist_ok=True)
     path = os.path.join(LEAN, "Audit", module.split(".")[-1] + ".lean")
     prints = "\n".join(f"#print axioms {t}" for t in theorems)
-    open(path, "w").write(AUDIT_TMPL.format(module=module, prints=prints))
+    imports = "\n".join("import " + m for m in [module] + list(extra_modules))
+    open(path, "w").write(AUDIT_TMPL.format(imports=imports, prints=prints))
     t = time.time()
     rc, out = sh(["lake", "env", "lean", path], cwd=LEAN, timeout=1200)
     log(f"audit {module} rc={rc} {time.time()-t:.1f}s")
@@ -344,13 +345,13 @@ class Run:
         return roots
 
     # ---- proof side
-    def prove(self, module, theorems, comps=(), thorough_leanchecker=True):
-        """build the property module (+ the oracle executables of `comps`), audit axioms of every theorem."""
-        hits = grep_forbidden([module] + ["Driver." + drv for drv in self._driver_roots(comps)])
+    def prove(self, module, theorems, comps=(), thorough_leanchecker=True, extra_modules=()):
+        """build the property module(s) (+ the oracle executables of `comps`), audit axioms of every theorem."""
+        hits = grep_forbidden([module] + list(extra_modules) + ["Driver." + drv for drv in self._driver_roots(comps)])
         if hits:
             self.violation("proof-grep", "# forbidden constructs in lean/ sources\n" + "\n".join(hits) + "\n", False,
                            "forbidden constructs")
-        rc, out = build_lean([module] + ["oracle_" + c for c in comps], self.log)
+        rc, out = build_lean([module] + list(extra_modules) + ["oracle_" + c for c in comps], self.log)
         if rc != 0:
             self.proof["build_failed"] = True
             body = f"# lake build {module} failed: a proof obligation of {self.prop} is no longer discharged\n"
@@ -358,14 +359,14 @@ class Run:
             body += "\n".join(errs) + "\n\n# full tail\n" + out[-4000:]
             self.violation("proof-build", body, False, "lake build failed")
             return False
-        ok, n, axioms, problems, aout = audit(module, theorems, self.log)
+        ok, n, axioms, problems, aout = audit(module, theorems, self.log, extra_modules)
         self.proof.update(obligations=n, discharged=n if ok else 0, theorems=theorems, axioms=axioms)
         if not ok:
             self.violation("proof-audit", "# axiom audit failed\n" + "\n".join(problems) + "\n" + aout[-3000:], False,
                            "audit failed")
             return False
         if self.tier == "thorough" and thorough_leanchecker:
-            rc, out = sh(["lake", "env", "leanchecker", module], cwd=LEAN, timeout=3000)
+            rc, out = sh(["lake", "env", "leanchecker", module] + list(extra_modules), cwd=LEAN, timeout=3000)
             self.log(f"leanchecker {module} rc={rc}")
             self.proof["leanchecker"] = rc
             if rc != 0:
@@ -526,7 +527,7 @@ def standard_run(r, mod):
         if rc != 0:
             r.violation("extract", "# fact extractor failed on /repo: the regenerated tie no longer checks\n" + out[-3000:], False,
                         "extractor failed")
-    r.prove(mod.MODULE, mod.THEOREMS, comps=mod.COMPS)
+    r.prove(mod.MODULE, mod.THEOREMS, comps=mod.COMPS, extra_modules=getattr(mod, "EXTRA_MODULES", ()))
     rc, out = build_go(r.log, list(mod.COMPS) + list(getattr(mod, "GO_EXTRA", [])))
     if rc != 0:
         r.violation("go-build", "# harness does not build against /repo any more\n" + out[-3000:], False, "go build failed")
